@@ -434,6 +434,195 @@ def make_models():
             return v
         return args[0]
 
+    def split_pieces(ex, st, s, sep, left):
+        """All ways `s.splitn(left, sep)` (left=None: split) can cut s -> [(cond, [piece, ...])]"""
+        cs = str_chars(s)
+        if left == 0:
+            return [(True, [])]
+        if left == 1:
+            return [(True, [s])]
+        out = []
+        none_before = True
+        for j in range(len(cs)):
+            hit = _simp(cs[j] == sep)
+            cond = _simp(b_and(none_before, hit))
+            if cond is not False and ex.ctx.feasible(st.pc, z3bool(cond) if cond is not True else True):
+                for c2, rest in split_pieces(ex, st, _substr(s, j + 1, len(cs)), sep, None if left is None else left - 1):
+                    c = _simp(b_and(cond, c2))
+                    if c is not False:
+                        out.append((c, [_substr(s, 0, j)] + rest))
+            none_before = _simp(b_and(none_before, b_not(hit)))
+            if none_before is False:
+                break
+        if none_before is not False:
+            out.append((none_before, [s]))
+        return out
+
+    def m_split_collect(ex, st, args, dest_ty, fname):
+        it = args[0]
+        if it.done or it.left == 0:
+            return VecM(())
+        cases = [(c, VecM(tuple(("refval", p) for p in ps))) for c, ps in split_pieces(ex, st, it.s, it.sep, it.left)]
+        return cases[0][1] if len(cases) == 1 and cases[0][0] is True else cases
+
+    def m_vec_index(ex, st, args, dest_ty, fname):
+        r = ref_to(ex, st, args[0])
+        n = len(ex.elements(ex.deref(r, st)))
+        i = args[1]
+        if is_sym(i):
+            raise ExecError("symbolic Vec index")
+        if not (0 <= i < n):
+            return Panic("index out of bounds: the len is %d but the index is %d" % (n, i))
+        _, (kind, fid, local, proj) = r
+        return ("ref", (kind, fid, local, tuple(proj) + (("cindex", i, False),)))
+
+    def m_vec_len(ex, st, args, dest_ty, fname):
+        return len(elems(ex, st, args[0]))
+
+    def parse_unsigned(bits):
+        def f(ex, st, args, dest_ty, fname):
+            s = sval(ex, st, args[0])
+            cs = list(str_chars(s))
+            err = enum("Err", ("opaque", "ParseIntError"))
+            if not cs:
+                return err
+            digit = lambda c: (z3.And(c >= 48, c <= 57) if is_sym(c) else (48 <= c <= 57))
+            def val(ds):
+                v = 0
+                for c in ds:
+                    v = v * 10 + (c - 48)
+                return v
+            alld = True
+            for c in cs:
+                alld = b_and(alld, digit(c))
+            restd = len(cs) > 1
+            for c in cs[1:]:
+                restd = b_and(restd, digit(c))
+            v1, v2 = val(cs), val(cs[1:])
+            inr = lambda v: (z3.And(v >= 0, v < (1 << bits)) if is_sym(v) else 0 <= v < (1 << bits))
+            a1 = _simp(b_and(alld, inr(v1)))
+            a2 = _simp(b_and(b_and((cs[0] == 43), restd), inr(v2)))
+            cases = []
+            if a1 is not False:
+                cases.append((a1, enum("Ok", v1)))
+            if a2 is not False:
+                cases.append((a2, enum("Ok", v2)))
+            rest = _simp(b_not(b_or(a1, a2)))
+            if rest is not False:
+                cases.append((rest, err))
+            return cases[0][1] if len(cases) == 1 and cases[0][0] is True else cases
+        return f
+
+    def m_from_str_radix16(ex, st, args, dest_ty, fname):
+        s = sval(ex, st, args[0])
+        cs = list(str_chars(s))
+        if args[1] != 16:
+            raise ExecError("from_str_radix with radix %r" % (args[1],))
+        err = enum("Err", ("opaque", "ParseIntError"))
+        if not cs:
+            return err
+        def hexd(c):
+            if is_sym(c):
+                return z3.Or(z3.And(c >= 48, c <= 57), z3.And(c >= 65, c <= 70), z3.And(c >= 97, c <= 102))
+            return 48 <= c <= 57 or 65 <= c <= 70 or 97 <= c <= 102
+        def hv(c):
+            if is_sym(c):
+                return z3.If(c <= 57, c - 48, z3.If(c <= 70, c - 55, c - 87))
+            return c - 48 if c <= 57 else c - 55 if c <= 70 else c - 87
+        def val(ds):
+            v = 0
+            for c in ds:
+                v = v * 16 + hv(c)
+            return v
+        alld = True
+        for c in cs:
+            alld = b_and(alld, hexd(c))
+        restd = len(cs) > 1
+        for c in cs[1:]:
+            restd = b_and(restd, hexd(c))
+        v1, v2 = val(cs), val(cs[1:])
+        inr = lambda v: (z3.And(v >= 0, v < (1 << 64)) if is_sym(v) else 0 <= v < (1 << 64))
+        a1 = _simp(b_and(alld, inr(v1)))
+        a2 = _simp(b_and(b_and((cs[0] == 43), restd), inr(v2)))
+        cases = []
+        if a1 is not False:
+            cases.append((a1, enum("Ok", v1)))
+        if a2 is not False:
+            cases.append((a2, enum("Ok", v2)))
+        rest = _simp(b_not(b_or(a1, a2)))
+        if rest is not False:
+            cases.append((rest, err))
+        return cases[0][1] if len(cases) == 1 and cases[0][0] is True else cases
+
+    def m_usize_to_string(ex, st, args, dest_ty, fname):
+        v = deref_all(ex, st, args[0])
+        if is_sym(v):
+            v = z3.simplify(v)
+            if not z3.is_int_value(v):
+                raise ExecError("to_string of a symbolic integer")
+            v = v.as_long()
+        return ConcStr(str(v))
+
+    def m_retain(ex, st, args, dest_ty, fname):
+        r = ref_to(ex, st, args[0])
+        vec = ex.deref(r, st)
+        clos = args[1]
+        f = ex.closure_function(clos[1])
+        _, (kind, fid, local, proj) = r
+        keep = []
+        for i, item in enumerate(vec.items):
+            eref = ("ref", (kind, fid, local, tuple(proj) + (("cindex", i, False),)))
+            val, pan = ex.call_value(st, f, [("refval", clos), eref])
+            if is_sym(val):
+                val = _simp(val)
+            if val is True or val is False or isinstance(val, (bool, int)):
+                if val:
+                    keep.append(item)
+            else:
+                raise ExecError("Vec::retain with a symbolic predicate")
+        ex.write_ref(st, r, VecM(tuple(keep)))
+        return UNIT
+
+    def m_extend_vec(ex, st, args, dest_ty, fname):
+        r = ref_to(ex, st, args[0])
+        a = ex.deref(r, st)
+        b = deref_all(ex, st, args[1])
+        ex.write_ref(st, r, VecM(tuple(a.items) + tuple(ex.elements(b))))
+        return UNIT
+
+    def m_opt_and_then(ex, st, args, dest_ty, fname):
+        o, clos = args
+        if o[1] == "None":
+            return NONE
+        f = ex.closure_function(clos[1])
+        heap = ex.copy_heap(st.heap)
+        heap[st.frame] = dict(st.locals)
+        sub = ex.run_function(f, [clos, o[2][0]], heap=heap, pc=st.pc)
+        return ("__with_heap__", [(c, v, h) for c, v, l, h in sub.rets] + [(c, Panic(m), None) for c, m in sub.panics])
+
+    def m_derived_ne(ex, st, args, dest_ty, fname):
+        f = ex.ctx.find_func(fname[:-4] + "::eq")
+        if f is None or isinstance(f, tuple):
+            raise ExecError("no eq for " + fname)
+        val, pan = ex.call_value(st, f, list(args))
+        return b_not(val)
+
+    def m_is_some(ex, st, args, dest_ty, fname):
+        return deref_all(ex, st, args[0])[1] == "Some"
+
+    def m_result_ok(ex, st, args, dest_ty, fname):
+        v = args[0]
+        return some(v[2][0]) if v[1] == "Ok" else NONE
+
+    def m_opt_branch(ex, st, args, dest_ty, fname):
+        o = args[0]
+        if o[1] == "Some":
+            return ("enum", "Continue", (o[2][0],))
+        return ("enum", "Break", (("enum", "None", ()),))
+
+    def m_opt_from_residual(ex, st, args, dest_ty, fname):
+        return NONE
+
     # ---- Option / Result ------------------------------------------------------------------------------------------------------
     def m_to_error(ex, st, args, dest_ty, fname):
         o, e = args
@@ -535,9 +724,9 @@ def make_models():
         return f
 
     return [
-        M(r"^BufReader::<&mut T>::new$", m_bufreader_new),
-        M(r"^<BufReader<&mut T> as BufRead>::read_until$", m_read_until),
-        M(r"^<BufReader<&mut T> as std::io::Read>::read_exact$", m_read_exact),
+        M(r"^BufReader::<(&mut )?T>::new$", m_bufreader_new),
+        M(r"^<BufReader<(&mut )?T> as BufRead>::read_until$", m_read_until),
+        M(r"^<BufReader<(&mut )?T> as std::io::Read>::read_exact$", m_read_exact),
         M(r"^<T as std::io::Read>::read_exact$", m_read_exact),
         M(r"^<.* as std::io::Read>::by_ref$", m_by_ref),
         M(r"^<.* as std::io::Read>::take$", m_take),
@@ -559,6 +748,22 @@ def make_models():
         M(r"^core::str::<impl str>::trim$", m_trim),
         M(r"^core::str::<impl str>::trim_end$", m_trim_end),
         M(r"^core::str::<impl str>::parse::<usize>$", m_parse_usize),
+        M(r"^core::str::<impl str>::parse::<u16>$", parse_unsigned(16)),
+        M(r"^core::num::<impl usize>::from_str_radix$", m_from_str_radix16),
+        M(r"^<std::str::SplitN<'_, char> as Iterator>::collect::<Vec<&str>>$", m_split_collect),
+        M(r"^<Vec<&str> as Index<usize>>::index$", m_vec_index),
+        M(r"^Vec::<.*>::len$", m_vec_len),
+        M(r"^<String as Index<std::ops::Range<usize>>>::index$", lambda ex, st, args, dest_ty, fname: __import__("mirsym.models", fromlist=["x"]).m_str_index_range(ex, st, args, dest_ty, fname)),
+        M(r"^<usize as ToString>::to_string$", m_usize_to_string),
+        M(r"^Vec::<Header>::retain::<", m_retain),
+        M(r"^<Vec<u8> as Extend<u8>>::extend::<Vec<u8>>$", m_extend_vec),
+        M(r"^Option::<&str>::and_then::<", m_opt_and_then),
+        M(r"^Option::<.*>::is_some$", m_is_some),
+        M(r"^<HeaderType as PartialEq>::ne$", m_derived_ne),
+        M(r"^Result::<.*>::ok$", m_result_ok),
+        M(r"^<Option<.*> as Try>::branch$", m_opt_branch),
+        M(r"^<Option<.*> as FromResidual<Option<Infallible>>>::from_residual$", m_opt_from_residual),
+        M(r"^Result::<.*>::map_err::<ResponseError, ", m_map_err),
         M(r"^<&?str as PartialEq(<&?str>)?>::eq$", m_str_eq),
         M(r"^<String as PartialEq(<&?str>|<String>)?>::eq$", m_string_eq),
         M(r"^core::str::<impl str>::len$", m_str_len),
